@@ -311,3 +311,50 @@ Example C09_refuted_empty_directory :
   is_dir (fst c09e_one_push) [b "d"] = true /\ is_dir (fst c09e_two_pushes) [b "d"] = false /\
   List.map fst (fs_files (fst c09e_one_push)) = List.map fst (fs_files (fst c09e_two_pushes)).
 Proof. vm_compute. repeat split; reflexivity. Qed.
+
+(* ---------- any number of invocations ---------- *)
+From RQ Require Import SplitPushes.
+
+(* an invocation that starts with nothing in memory at the index its predecessors reached, then the next one: the
+   generalisation of C09_first_then_second_from_scratch from index 0 to any index - a split into k invocations is a
+   chain of these *)
+Theorem C09_fresh_then_next :
+  forall K dm cfg db fs n0 seg st n rejs fs1 cl,
+    disk_ok fs -> c_dry_run cfg = false -> fs_fault fs = None -> no_file_dir fs ->
+    apply_series cfg db fresh n0 seg fs = (fs, ROk (st, n, rejs)) ->
+    series_sizes cfg db fs fresh n0 seg ->
+    save_all dm (a_files st) [] fs = (fs1, ROk cl) ->
+    Forall (fun e => kpath e <> []) (a_files st) ->
+    no_through (a_files st) -> Forall lines_ok (a_files st) ->
+    (forall k, okkey K k -> ov_get k (a_files st) = None -> Forall (fun e => indep (normalize k) (kpath e)) (a_files st)) ->
+    forall rest, series_in K db rest ->
+    let fs2 := fst (clean_all cl fs1) in
+    fst (apply_series cfg db st n rest fs) = fs /\
+    fst (apply_series cfg db fresh n rest fs2) = fs2 /\
+    ressim (sersim K dm fs fs2 (a_applied st) [])
+           (snd (apply_series cfg db st n rest fs))
+           (snd (apply_series cfg db fresh n rest fs2)).
+Proof. exact fresh_then_next. Qed.
+Print Assumptions C09_fresh_then_next.
+
+(* the chain spelled out for three invocations: `push <seg1>; push <seg2>; push <rest>` ends - same final index, same
+   rejects, every name reading the same, the same statuses recorded by the last invocation - as the single run that
+   goes on in memory after the first segment (which, when seg1 applied completely, is the single push of
+   seg1 ++ seg2 ++ rest: C09_apply_loop_composes).  Similarity composes (extsim_chain), so longer chains follow the
+   same way. *)
+Theorem C09_three_invocations_equal_one :
+  forall K dm cfg db fs seg1 st1 n1 rejs1 fs1 cl1 seg2 st2 rejs2 fs1' cl2,
+    c_dry_run cfg = false ->
+    apply_series cfg db fresh 0 seg1 fs = (fs, ROk (st1, n1, rejs1)) ->
+    invocation_ok K dm cfg db fs 0 seg1 st1 fs1 cl1 ->
+    let fs2 := fst (clean_all cl1 fs1) in
+    apply_series cfg db fresh n1 seg2 fs2 = (fs2, ROk (st2, (n1 + List.length seg2)%nat, rejs2)) ->
+    invocation_ok K dm cfg db fs2 n1 seg2 st2 fs1' cl2 ->
+    let fs3 := fst (clean_all cl2 fs1') in
+    forall rest, series_in K db (seg2 ++ rest) ->
+    exists base,
+      ressim (sersim K dm fs fs3 base [])
+             (snd (apply_series cfg db st1 n1 (seg2 ++ rest) fs))
+             (snd (apply_series cfg db fresh (n1 + List.length seg2) rest fs3)).
+Proof. exact three_invocations_equal_one. Qed.
+Print Assumptions C09_three_invocations_equal_one.
